@@ -968,6 +968,9 @@ class CallMixin:
             if isinstance(v.s, Seq):
                 nv = self.fresh(v.s, "sorted", s1)
                 self.assume_perm(s1, v, nv)
+                kf = kw.get("key")
+                if kf is not None and kf.s == FUNC and kf.t[0] == "lambda" and len(kf.t[1].args.args) == 1:
+                    self.sorted_by_key(s1, nv, kf.t[1], kw.get("reverse"), exc)
                 if v.s.elem in (INT, STR, BYTES):
                     # same members (a permutation), and for integers (without key=/reverse=) the ends are the extremes
                     x = v.s.elem.fresh("m")
@@ -991,6 +994,54 @@ class CallMixin:
                 exc.append((s1.copy(), exc_value("Exception*", e.lineno, "sorted")))
                 res.append((s1, (expect or ANY).fresh("sorted")))
         return res
+
+    def sorted_by_key(self, st, nv, lam, reverse, exc):
+        """sorted(seq, key=lambda x: body[, reverse=True]): the result is ordered by the key. The lambda body is evaluated on the
+        elements at two quantified positions i <= j; keys are integers, strings or tuples of those (compared lexicographically)."""
+        rev = reverse is not None and z3.is_true(S.truthy(reverse).t)
+        if reverse is not None and not (z3.is_true(S.truthy(reverse).t) or z3.is_false(S.truthy(reverse).t)):
+            return
+        i, j = z3.Int(S.fresh_name("si")), z3.Int(S.fresh_name("sj"))
+        keys = []
+        for idx in (i, j):
+            s2 = st.copy()
+            s2.env = dict(s2.env)
+            s2.env[lam.args.args[0].arg] = V(nv.s.elem, nv.t[idx])
+            outs = self.ev(lam.body, s2, [])
+            if len(outs) != 1:
+                return
+            keys.append(outs[0][1])
+        le = self.key_le(keys[1], keys[0]) if rev else self.key_le(keys[0], keys[1])
+        if le is None:
+            return
+        st.assume(z3.ForAll([i, j], z3.Implies(z3.And(0 <= i, i <= j, j < z3.Length(nv.t)), le.t)))
+
+    def key_le(self, a, b):
+        if a.s != b.s:
+            return None
+        if a.s == INT:
+            return V(BOOL, a.t <= b.t)
+        if isinstance(a.s, S._Str):
+            return V(BOOL, z3.Or(a.t == b.t, a.t < b.t))
+        if isinstance(a.s, Opt) and isinstance(a.s.inner, S._Str):
+            return None
+        if isinstance(a.s, Tup):
+            res = S.TRUE
+            for k in range(len(a.s.elems) - 1, -1, -1):
+                x, y = a.s.get(a, k), b.s.get(b, k)
+                lt = self.key_lt(x, y)
+                if lt is None:
+                    return None
+                res = S.Or(lt, S.And(S.eq(x, y), res))
+            return res
+        return None
+
+    def key_lt(self, a, b):
+        if a.s == INT:
+            return V(BOOL, a.t < b.t)
+        if isinstance(a.s, S._Str):
+            return V(BOOL, a.t < b.t)
+        return None
 
     def bi_list(self, e, st, exc, expect):
         res = []
